@@ -152,7 +152,15 @@ class EventletWorker(AsyncWorker):
 
     def handle(self, listener, client, addr):
         if self.cfg.is_ssl:
-            client = ssl_wrap_socket(client, self.cfg)
+            try:
+                client = ssl_wrap_socket(client, self.cfg)
+            except OSError as e:
+                # the peer reset the connection or failed the handshake
+                # (do_handshake_on_connect): an exception escaping from here
+                # would be passed on to the acceptor and end it
+                self.log.debug("Error processing SSL request: %s", e)
+                client.close()
+                return
         super().handle(listener, client, addr)
 
     def run(self):
